@@ -410,7 +410,7 @@ def normpath_table(ctx, rule, maxlen=4):
 
 
 
-PUNY_LABELS = ("a", "xn--caf-dma", "XN--caf-dma", "Xn--CAF-DMA", "café", "xn--zz--", "xn--", "www")
+PUNY_LABELS = ("a", "xn--caf-dma", "XN--caf-dma", "Xn--CAF-DMA", "café", "xn--zz--", "xn--", "www", "xn--node", "xn--xkc2al3hye2a", "xn---x")
 
 
 def rule_punycode(ctx, rule):
